@@ -770,25 +770,72 @@ def lazy_predicates(ctx: Ctx, rule: str) -> None:
     ctx.record(rule, "TABLE", fref, "should_parse: False iff some involved, unrestricted worker has unrolled the node and is cleanup-ready on it; else True", ok, {"paths": len(views)},
                "" if ok else (problems[0] if problems else "should_parse changed shape"))
     fref2 = f"{N_}.is_unrolled"
-    views2 = function_views(ctx, fref2, None, roles=["worker"])
-    rows = set()
-    bad = []
-    for v in views2:
-        conds = [ast.unparse(s.node) + ("" if s.pol else " [F]") for s in v.steps if s.kind == "cond"]
-        if v.path.exit == "raise":
-            rows.add("raise")
-            if PathEnum._raised_name(v.path.exit_node) != "RuntimeError" or "not self.is_flat()" not in conds:
-                bad.append("unexpected raise")
-        elif v.path.exit == "return":
-            val = v.path.exit_node.value
-            rows.add(str(val.value) if isinstance(val, ast.Constant) else "?")
+    from ..kinds import TableSpec, table_rule
+
     f2 = ctx.repo.func(fref2)
-    src = ast.unparse(f2.node)
     wn = f2.params()[1]
-    ok2 = not bad and rows == {"raise", "True", "False"} and "if self.is_shared_root():\n        return True" in src \
-        and f"{wn}.net.long_suffix in self.incompatible_workers" in src and f"if self.setless_form in node.id:\n            if {wn} and {wn}.id in node.id:\n                return True" in src
-    ctx.record(rule + "u", "TABLE", fref2, "is_unrolled: root -> True; composite -> RuntimeError; incompatible worker -> True; a child of the same set-invariant name for this worker -> True; else False",
-               ok2, {"rows": sorted(rows)}, "" if ok2 else "the test whether a flat node is already expanded for a worker changed")
+    views2 = function_views(ctx, fref2, None)
+    for v_ in views2:
+        v_.depth = 0
+
+    def M(name, text, neg=False):
+        def m(t):
+            if t == text:
+                return (lambda v: not v[name]) if neg else (lambda v: v[name])
+            return None
+        return m
+
+    loops = [l for l in f2.node.body if isinstance(l, ast.For)]
+    nd = loops[0].target.id if len(loops) == 1 and isinstance(loops[0].target, ast.Name) else "node"
+    matchers = [M("ROOT", "self.is_shared_root()"), M("FLAT", "self.is_flat()"), M("W", wn), M("WNONE", f"{wn} is None"),
+                M("INC", f"{wn}.net.long_suffix in self.incompatible_workers"), M("ANYINC", "empty(self.incompatible_workers)", neg=True),
+                M("CHILD", f"self.setless_form in {nd}.id"), M("MINE", f"{wn}.id in {nd}.id")]
+
+    def reference(v):
+        if v["ROOT"]:
+            return "True"
+        if not v["FLAT"]:
+            return "raise:RuntimeError"
+        if (v["W"] and v["INC"]) or (v["WNONE"] and v["ANYINC"]):
+            return "True"
+        # decided by the children: a child of the same set-invariant name for this worker (any worker if none is given)
+        if v["HASCHILD"] and v["CHILD"] and ((v["W"] and v["MINE"]) or v["WNONE"]):
+            return "True"
+        return "False"
+
+    # a worker object is truthy exactly when it is not None
+    spec = TableSpec({k: [True, False] for k in ("ROOT", "FLAT", "W", "WNONE", "INC", "ANYINC", "CHILD", "MINE", "HASCHILD")}, matchers + [M("HASCHILD", "__iter__")], reference,
+                     constraint=lambda v: v["W"] != v["WNONE"])
+
+    def outcome(view, val, free):
+        if view.path.exit == "raise":
+            return "raise:" + (PathEnum._raised_name(view.path.exit_node) or "?")
+        val_ = view.path.exit_node.value
+        return str(val_.value) if isinstance(val_, ast.Constant) else ast.unparse(val_)
+
+    # the loop over the children: a path that iterates once has HASCHILD, one that skips the loop has not
+    class _V:
+        pass
+
+    tagged = []
+    for v_ in views2:
+        iterated = any(st.kind == "iter" and st.extra == "next" for st in v_.steps)
+        tagged.append((v_, iterated))
+    # encode the iteration as a pseudo condition understood by the table
+    import copy as _copy
+    from ..paths import Step as _Step
+
+    views3 = []
+    for v_, iterated in tagged:
+        node = ast.parse("__iter__", mode="eval").body
+        reaches_loop = any(st.kind == "iter" for st in v_.steps)
+        extra = [_Step("cond", node, iterated)] if reaches_loop else []
+        v3 = PathView(type(v_.path)(v_.path.steps + extra, v_.path.exit, v_.path.exit_node), {})
+        v3.depth = 0
+        views3.append(v3)
+    table_rule(ctx, rule + "u", fref2, views3, spec, outcome,
+               construct="is_unrolled: shared root -> True; composite -> RuntimeError; incompatible worker (any incompatibility if no worker given) -> True; "
+               "a child of the same set-invariant name for this worker (for any worker if none given) -> True; else False")
 
 
 # ---------------------------------------------------------------------- node objects
